@@ -40,6 +40,7 @@ type segment struct {
 	iterator bool
 	slice    []int64 // either 0-length or 2-length
 	field    string
+	isField  bool // distinguishes the (legal) empty field name from "no field"
 	index    int
 }
 
@@ -100,7 +101,8 @@ func resolve(sel Selector, subject ipld.Node, at []string) (ipld.Node, error) {
 				if seg.Optional() {
 					// build an empty list
 					n, _ := qp.BuildList(basicnode.Prototype.Any, 0, func(_ datamodel.ListAssembler) {})
-					return n, nil
+					cur = n
+					continue
 				}
 				return nil, newResolutionError(fmt.Sprintf("can not iterate over kind: %s", kindString(cur)), at)
 
@@ -127,13 +129,13 @@ func resolve(sel Selector, subject ipld.Node, at []string) (ipld.Node, error) {
 				if err != nil {
 					panic("should never happen")
 				}
-				return nd, nil
+				cur = nd
 
 			default:
 				return nil, newResolutionError(fmt.Sprintf("can not iterate over kind: %s", kindString(cur)), at)
 			}
 
-		case seg.Field() != "":
+		case seg.isField:
 			at = append(at, seg.Field())
 			switch {
 			case cur == nil:
@@ -233,7 +235,8 @@ func resolve(sel Selector, subject ipld.Node, at []string) (ipld.Node, error) {
 				cur = basicnode.NewInt(int64(b[idx]))
 
 			default:
-				return nil, newResolutionError(fmt.Sprintf("can not access index: %d on kind: %s", seg.Index(), kindString(cur)), at)
+				err := newResolutionError(fmt.Sprintf("can not access index: %d on kind: %s", seg.Index(), kindString(cur)), at)
+				return nil, errIfNotOptional(seg, err)
 			}
 		}
 	}
